@@ -302,6 +302,7 @@ func c02(r *core.Report) {
 	resetScope(r, "C02.resetscope")
 	c02Text(r)
 	c02Untyped(r)
+	c02Pointer(r)
 }
 
 // c02Term: resolution terminates – every recursive descent in the resolve family is on the finite
@@ -1290,6 +1291,76 @@ func c02Untyped(r *core.Report) {
 		})
 		if n == 0 {
 			core.Fail("resolveComponent has no case that re-decodes the object found through encoding/json")
+		}
+	})
+}
+
+// c02Pointer: RFC 6901 decodes "~1" to "/" BEFORE "~0" to "~"; the other order turns the token
+// "~01" (the two characters "~1") into "/".
+func c02Pointer(r *core.Report) {
+	p := r.Prog
+	info := p.Pkg("openapi3").TypesInfo
+	r.RunRule("C02.pointer", "JSON-pointer tokens are unescaped in the order of RFC 6901: in the function of package openapi3 that replaces both \"~1\" by \"/\" and \"~0\" by \"~\" (strings.Replace / ReplaceAll with constant arguments), the \"~1\" replacement is applied to the text first — it is the inner call of a nested expression, or the earlier statement", 1, func() {
+		n := 0
+		for _, d := range p.AllDecls("openapi3") {
+			if d.Body == nil {
+				continue
+			}
+			type rep struct {
+				call  *ast.CallExpr
+				depth int
+			}
+			var r1, r0 *rep
+			var walk func(nd ast.Node, depth int)
+			walk = func(nd ast.Node, depth int) {
+				ast.Inspect(nd, func(m ast.Node) bool {
+					c, ok := m.(*ast.CallExpr)
+					if !ok || len(c.Args) < 3 {
+						return true
+					}
+					f := core.CalleeOf(info, c)
+					if f == nil || (f.FullName() != "strings.Replace" && f.FullName() != "strings.ReplaceAll") {
+						return true
+					}
+					from, ok1 := strConst(info, c.Args[1])
+					to, ok2 := strConst(info, c.Args[2])
+					if !ok1 || !ok2 {
+						return true
+					}
+					// nesting depth: how many replace calls enclose this one
+					dpt := 0
+					for _, anc := range core.PathTo(d.Body, c) {
+						if ac, ok := anc.(*ast.CallExpr); ok && ac != c {
+							if af := core.CalleeOf(info, ac); af != nil && strings.HasPrefix(af.FullName(), "strings.Replace") {
+								dpt++
+							}
+						}
+					}
+					if from == "~1" && to == "/" {
+						r1 = &rep{c, dpt}
+					}
+					if from == "~0" && to == "~" {
+						r0 = &rep{c, dpt}
+					}
+					return true
+				})
+			}
+			walk(d.Body, 0)
+			if r1 == nil || r0 == nil {
+				continue
+			}
+			n++
+			key := "pointer:" + core.FuncName(d)
+			// applied first = deeper nesting; at equal depth, the earlier position
+			first1 := r1.depth > r0.depth || (r1.depth == r0.depth && r1.call.Pos() < r0.call.Pos())
+			if first1 {
+				r.OK(key, p.Pos(r1.call.Pos()), "\"~1\" is decoded before \"~0\"")
+			} else {
+				r.Bad(key, p.Pos(r0.call.Pos()), "\"~0\" is decoded before \"~1\": the pointer token `~01`, which stands for the two characters `~1`, first becomes `~1` and then `/` — a reference to a key that contains `~1` fails to resolve, or resolves to the sibling key spelled with `/`")
+			}
+		}
+		if n == 0 {
+			core.Fail("no function of openapi3 unescapes both ~1 and ~0 with constant replacements")
 		}
 	})
 }
